@@ -637,6 +637,10 @@ func runUnpack(c *core.Ctx, up *ssa.Function) {
 					if iff, isIf := r2.(*ssa.If); isIf {
 						tb := iff.Block().Succs[0]
 						_, rets := tb.Instrs[len(tb.Instrs)-1].(*ssa.Return)
+						// directly, or along the only feasible path (through result variables of an inlined helper)
+						if !rets {
+							rets = leadsToErrorReturn(tb, iff.Block(), map[ssa.Value]bool{errV: true}, useBlock)
+						}
 						if rets && (useBlock == nil || edgeDom(iff, 1, useBlock)) {
 							ok = true
 						}
@@ -691,13 +695,20 @@ func runUnpack(c *core.Ctx, up *ssa.Function) {
 				}
 				return v == ssa.Value(newDyn)
 			}
-			if phi, ok := root.(*ssa.Phi); ok {
-				for _, e := range phi.Edges {
-					if !okRoot(e) {
-						recvOK = false
-					}
+			// the type may reach the call through several phis (result variables); nil edges belong to error paths,
+			// which return before the type is used (ANY.errors / the fallback guard)
+			leaves := flattenPhi(root, map[ssa.Value]bool{})
+			nLeaf := 0
+			for _, e := range leaves {
+				if isNilConst(e) {
+					continue
 				}
-			} else if !okRoot(root) {
+				nLeaf++
+				if !okRoot(e) {
+					recvOK = false
+				}
+			}
+			if nLeaf == 0 {
 				recvOK = false
 			}
 		}
@@ -715,4 +726,127 @@ func runUnpack(c *core.Ctx, up *ssa.Function) {
 		}
 	})
 	c.Check(retOK, "ANY.fallback", "anyutil.Unpack success return", "returns the decoded message with a nil error", "no success return of the decoded message", pos(up.Pos()), src)
+}
+
+func flattenPhi(v ssa.Value, seen map[ssa.Value]bool) []ssa.Value {
+	v = stripConv(v)
+	if seen[v] {
+		return nil
+	}
+	seen[v] = true
+	if phi, ok := v.(*ssa.Phi); ok {
+		var out []ssa.Value
+		for _, e := range phi.Edges {
+			out = append(out, flattenPhi(e, seen)...)
+		}
+		return out
+	}
+	return []ssa.Value{v}
+}
+
+// leadsToErrorReturn follows the single feasible path from block b (entered from pred) to a return: phis are
+// resolved by the edge taken, nil tests of values known to be non-nil (the tested error, a freshly built error) or
+// nil take the corresponding branch. It succeeds when the path ends in a return whose error result is non-nil and
+// whose other results are nil, without passing through avoid.
+func leadsToErrorReturn(b, pred *ssa.BasicBlock, nonNil map[ssa.Value]bool, avoid *ssa.BasicBlock) bool {
+	env := map[*ssa.Phi]ssa.Value{}
+	resolve := func(v ssa.Value) ssa.Value {
+		for i := 0; i < 10; i++ {
+			v = stripConv(v)
+			if mi, ok := v.(*ssa.MakeInterface); ok {
+				v = mi.X
+				continue
+			}
+			if phi, ok := v.(*ssa.Phi); ok {
+				if r, ok := env[phi]; ok {
+					v = r
+					continue
+				}
+			}
+			break
+		}
+		return v
+	}
+	isNonNil := func(v ssa.Value) (bool, bool) { // (known, nonNil)
+		v = resolve(v)
+		if nonNil[v] {
+			return true, true
+		}
+		if isNilConst(v) {
+			return true, false
+		}
+		if call, ok := v.(*ssa.Call); ok {
+			switch calleeName(&call.Call) {
+			case "fmt.Errorf", "errors.New":
+				return true, true
+			}
+			if strings.HasSuffix(calleeName(&call.Call), "NewError") {
+				return true, true
+			}
+		}
+		return false, false
+	}
+	for steps := 0; steps < 40; steps++ {
+		if b == avoid {
+			return false
+		}
+		// bind the phis of b for the edge pred -> b
+		idx := -1
+		for i, p := range b.Preds {
+			if p == pred {
+				idx = i
+			}
+		}
+		for _, in := range b.Instrs {
+			phi, ok := in.(*ssa.Phi)
+			if !ok {
+				break
+			}
+			if idx >= 0 && idx < len(phi.Edges) {
+				env[phi] = resolve(phi.Edges[idx])
+			}
+		}
+		switch last := b.Instrs[len(b.Instrs)-1].(type) {
+		case *ssa.Return:
+			n := len(last.Results)
+			if n == 0 {
+				return false
+			}
+			if known, nn := isNonNil(last.Results[n-1]); !known || !nn {
+				return false
+			}
+			for _, r := range last.Results[:n-1] {
+				if known, nn := isNonNil(r); !known || nn {
+					return false
+				}
+			}
+			return true
+		case *ssa.Jump:
+			pred, b = b, b.Succs[0]
+		case *ssa.If:
+			bo, ok := last.Cond.(*ssa.BinOp)
+			if !ok || (bo.Op != token.NEQ && bo.Op != token.EQL) {
+				return false
+			}
+			x := bo.X
+			if isNilConst(bo.X) {
+				x = bo.Y
+			} else if !isNilConst(bo.Y) {
+				return false
+			}
+			known, nn := isNonNil(x)
+			if !known {
+				return false
+			}
+			taken := (bo.Op == token.NEQ) == nn
+			if taken {
+				pred, b = b, b.Succs[0]
+			} else {
+				pred, b = b, b.Succs[1]
+			}
+		default:
+			return false
+		}
+	}
+	return false
 }
